@@ -58,7 +58,7 @@ class Col(list):
 
     @property
     def values(self):
-        return list(self)
+        return list(list.__iter__(self))  # the plain strings (what .values of a string variable holds)
 
     def __iter__(self):
         return iter([StrVar(x) if isinstance(x, str) else x for x in list.__iter__(self)])
